@@ -48,8 +48,11 @@ def gen_outcomes(rng, rcpts, L, bias):
                 per[r] = [vd, var]
                 if vd == 'temp':
                     nxt.append(r)
-            out.append({'t': 'seq' if rng.random() < 0.2 else 'map', 'r': per,
-                        'lat': lat})
+            spec = {'t': 'seq' if rng.random() < 0.2 else 'map', 'r': per,
+                    'lat': lat}
+            if spec['t'] == 'map' and rng.random() < 0.4:
+                spec['order'] = rng.choice(['reverse', 'domain', 'rotate'])
+            out.append(spec)
             if nxt and len(nxt) < len(outstanding):
                 partial_rounds += 1
             outstanding = nxt
@@ -263,6 +266,12 @@ def index_shift(scn, obs, a, before=None):
                 owner = att
         if owner is None:
             continue
+        rel = sorted(i for i, r in enumerate(owner['rcpts'])
+                     if (owner['truth'] or {}).get(r) in ('ok', 'perm'))
+        if sorted(o['args']) != rel:
+            # the queue did not pass the relative indexes of the recipients
+            # this attempt settled: something else is wrong, not this finding
+            return False
         raw += list(o['args'])
         for r, t in (owner['truth'] or {}).items():
             if t in ('ok', 'perm'):
